@@ -18,10 +18,11 @@ pub ghost struct World {
     pub signals: Seq<(int, int)>,           // killpg(gid, sig)
     pub marked_running: Seq<(int, bool)>,   // jobc::mark_job_as_running(gid, bg)
     pub waited: Seq<(int, Seq<i32>)>,       // jobc::wait_fg_job(gid, pids)
+    pub polled: bool,                       // jobc::try_wait_bg_jobs was called: the recorded child events are applied to the table
     pub target: Option<(int, Seq<i32>)>,    // (gid, pids) of the job the last successful lookup returned
 }
 pub open spec fn same_but_target(a: World, b: World) -> bool {
-    a.tty_pgrp == b.tty_pgrp && a.pgrp == b.pgrp && a.signals == b.signals && a.marked_running == b.marked_running && a.waited == b.waited
+    a.tty_pgrp == b.tty_pgrp && a.pgrp == b.pgrp && a.signals == b.signals && a.marked_running == b.marked_running && a.waited == b.waited && a.polled == b.polled
 }
 impl CommandResult {
 //@FN CommandResult::new
@@ -36,11 +37,13 @@ impl Shell {
     // contracts proved in U-JOBS; here the ghost `target` records which job a successful lookup returned
     #[verifier::external_body]
     pub fn get_job_by_id(&self, job_id: i32, Tracked(w): Tracked<&mut World>) -> (r: Option<&Job>)
+        requires old(w).polled,   //@L C06+C07.fg_bg.the_recorded_child_events_are_applied_before_the_job_and_its_members_are_looked_up
         ensures same_but_target(*old(w), *final(w)),
             final(w).target == (match r { Some(j) => Some((j.gid as int, j.pids@)), None => old(w).target })
     { unimplemented!() }
     #[verifier::external_body]
     pub fn get_job_by_gid(&self, gid: i32, Tracked(w): Tracked<&mut World>) -> (r: Option<&Job>)
+        requires old(w).polled,   //@L C06+C07.fg_bg.the_recorded_child_events_are_applied_before_the_job_is_looked_up_by_its_group
         ensures same_but_target(*old(w), *final(w)),
             final(w).target == (match r { Some(j) => Some((j.gid as int, j.pids@)), None => old(w).target })
     { unimplemented!() }
@@ -52,27 +55,27 @@ pub fn print_stderr_with_capture(info: &str, cr: &mut CommandResult, cl: &Comman
 #[verifier::external_body]
 pub fn killpg(gid: i32, sig: i32, Tracked(w): Tracked<&mut World>) -> (r: i32)
     ensures final(w).signals == old(w).signals.push((gid as int, sig as int)), final(w).tty_pgrp == old(w).tty_pgrp, final(w).pgrp == old(w).pgrp,
-        final(w).marked_running == old(w).marked_running, final(w).waited == old(w).waited, final(w).target == old(w).target
+        final(w).marked_running == old(w).marked_running, final(w).waited == old(w).waited, final(w).target == old(w).target, final(w).polled == old(w).polled
 { unimplemented!() }
 // contract proved in U-WAIT / U-JOBS (state change of the table); here: that it was asked for, for which group, as background or not
 #[verifier::external_body]
 pub fn mark_job_as_running(sh: &mut Shell, gid: i32, bg: bool, Tracked(w): Tracked<&mut World>)
     ensures final(w).marked_running == old(w).marked_running.push((gid as int, bg)), final(w).tty_pgrp == old(w).tty_pgrp, final(w).pgrp == old(w).pgrp,
-        final(w).signals == old(w).signals, final(w).waited == old(w).waited, final(w).target == old(w).target
+        final(w).signals == old(w).signals, final(w).waited == old(w).waited, final(w).target == old(w).target, final(w).polled == old(w).polled
 { unimplemented!() }
 // C07: while a foreground job is waited for, the terminal belongs to its process group
 #[verifier::external_body]
 pub fn wait_fg_job(sh: &mut Shell, gid: i32, pids: &Vec<i32>, Tracked(w): Tracked<&mut World>) -> (r: CommandResult)
     requires old(w).tty_pgrp == gid as int
     ensures final(w).waited == old(w).waited.push((gid as int, pids@)), final(w).tty_pgrp == old(w).tty_pgrp, final(w).pgrp == old(w).pgrp,
-        final(w).signals == old(w).signals, final(w).marked_running == old(w).marked_running, final(w).target == old(w).target
+        final(w).signals == old(w).signals, final(w).marked_running == old(w).marked_running, final(w).target == old(w).target, final(w).polled == old(w).polled
 { unimplemented!() }
 // tcsetpgrp with SIGTTOU blocked: assumed to succeed when the shell names its own group (same assumption as U-PROC)
 #[verifier::external_body]
 pub fn give_terminal_to(gid: i32, Tracked(w): Tracked<&mut World>) -> (r: bool)
     ensures final(w).tty_pgrp == (if r { gid as int } else { old(w).tty_pgrp }), gid as int == old(w).pgrp ==> r,
         final(w).pgrp == old(w).pgrp, final(w).signals == old(w).signals, final(w).marked_running == old(w).marked_running,
-        final(w).waited == old(w).waited, final(w).target == old(w).target
+        final(w).waited == old(w).waited, final(w).target == old(w).target, final(w).polled == old(w).polled
 { unimplemented!() }
 #[verifier::external_body]
 pub fn vx_getpgid0(Tracked(w): Tracked<&World>) -> (r: i32) ensures r as int == w.pgrp { unimplemented!() }
@@ -87,6 +90,12 @@ pub fn vx_int_to_string(n: i64) -> (r: String) ensures r@ == spec_int_str(n as i
 #[verifier::external_body]
 pub fn vx_clone_pids(v: &Vec<i32>) -> (r: Vec<i32>) ensures r@ == v@ { v.clone() }
 
+// jobc::try_wait_bg_jobs as fg / bg call it (repair a606469): whatever child events were recorded since the last prompt are applied to the table (contract in U-WAIT: any change of sh.jobs)
+#[verifier::external_body]
+pub fn try_wait_bg_jobs_w(sh: &mut Shell, report: bool, sig_handler: bool, Tracked(w): Tracked<&mut World>)
+    ensures final(w).polled, final(w).tty_pgrp == old(w).tty_pgrp, final(w).pgrp == old(w).pgrp, final(w).signals == old(w).signals, final(w).marked_running == old(w).marked_running,
+        final(w).waited == old(w).waited, final(w).target == old(w).target
+{ unimplemented!() }
 // ---- the `jobs` builtin (C06 / C07): what is listed is the table as it is AFTER the poll the builtin itself makes ----
 pub ghost struct ListLog { pub polled: bool, pub printed: Seq<Seq<char>> }
 // jobc::try_wait_bg_jobs: applies whatever child events are pending to the table (contracts in U-WAIT): any change of sh.jobs
@@ -137,13 +146,14 @@ RW = [
     Rw('shell::give_terminal_to(', 'give_terminal_to(', required=False, rule='R0'),
     Rw('libc::getpgid(0)', 'vx_getpgid0(Tracked(w))', required=False, rule='R8'),
     Rw('job.pids.clone()', 'vx_clone_pids(&job.pids)', required=False, rule='R7'),
+    Rw('jobc::try_wait_bg_jobs(', 'try_wait_bg_jobs_w(', required=False, rule='R0'),
 ]
 GA = {'get_job_by_id': 'Tracked(w)', 'get_job_by_gid': 'Tracked(w)', 'killpg': 'Tracked(w)', 'mark_job_as_running': 'Tracked(w)',
-      'wait_fg_job': 'Tracked(w)', 'give_terminal_to': 'Tracked(w)'}
+      'wait_fg_job': 'Tracked(w)', 'give_terminal_to': 'Tracked(w)', 'try_wait_bg_jobs_w': 'Tracked(w)'}
 PRE = 'old(w).target.is_none() && forall|i: int| 0 <= i < cmd.tokens@.len() ==> true'
 
 bg_run = Fn('src/builtins/bg.rs', 'run', rename='bg_run', ret='r', pre_rewrites=RW, int_args=('job.id',), add_params='Tracked(w): Tracked<&mut World>', ghost_args=GA,
-    requires=[('C07.pre.bg.no_lookup_yet', 'old(w).target.is_none()')],
+    requires=[('C07.pre.bg.no_lookup_yet', 'old(w).target.is_none() && !old(w).polled')],
     ensures=[
         ('C07.bg.the_job_found_is_resumed_as_a_whole_group',
          'match final(w).target { Some(t) => final(w).signals == old(w).signals.push((t.0, SIGCONT as int)), None => final(w).signals == old(w).signals }'),
@@ -152,7 +162,7 @@ bg_run = Fn('src/builtins/bg.rs', 'run', rename='bg_run', ret='r', pre_rewrites=
         ('C07.bg.terminal_untouched', 'final(w).tty_pgrp == old(w).tty_pgrp && final(w).waited == old(w).waited'),
     ])
 fg_run = Fn('src/builtins/fg.rs', 'run', rename='fg_run', ret='r', pre_rewrites=RW, int_args=('job.id',), add_params='Tracked(w): Tracked<&mut World>', ghost_args=GA,
-    requires=[('C07.pre.fg.shell_owns_terminal', 'old(w).target.is_none() && old(w).tty_pgrp == old(w).pgrp')],
+    requires=[('C07.pre.fg.shell_owns_terminal', 'old(w).target.is_none() && old(w).tty_pgrp == old(w).pgrp && !old(w).polled')],
     ensures=[
         ('C07.fg.terminal_is_the_shells_again', 'final(w).tty_pgrp == final(w).pgrp && final(w).pgrp == old(w).pgrp'),
         ('C06+C07.fg.the_job_found_is_resumed_as_a_whole_group_and_all_members_waited_for',
